@@ -51,7 +51,9 @@ CLAIMED['C06'] = dict(
 CLAIMED['C04'] = dict(
     text='Decides with Z3 over the real MIR: C04.K1 the slot depth the optimiser writes into PushHandler equals the run-time depth '
          '(callee slot + parameters + net effect of preceding instructions; entry value plus one inductive step over an arbitrary '
-         'program); C04.K2 Fiber::stack_unwind from an arbitrary fiber picks the innermost handler, honours the native boundary, '
+         'program); C04.K2 Fiber::stack_unwind from an arbitrary fiber picks the innermost handler, leaves every handler at or below the native '
+         'boundary to the calling code (the boundary is the caller\'s frame count: decided on the real run_fun by C18.K2; found and '
+         'fixed F35, the handler of the frame that invoked a stack-less native ran inside the nested execution), '
          'restores frame, stack top = frame start + slot depth and ip = chunk start + offset; C04.K3 op_check_handler / op_raise / '
          'op_pop_handler / op_continue_unwind / op_get_error / op_push_handler behave as the source rules prescribe for every '
          'operand; C04.C1 the real lowering functions break_ / continue_ / return_ / emit_return / try_ / loop_scope / child are '
